@@ -88,7 +88,7 @@ def run(prop, tier, seed, replay=None):
                         "rule": "scenario = 2-5 DAG files (string / list / start-stop-restart map / no schedule / unparsable / bad cron; suspended; prior history none/old/running/same minute) "
                                 "with cron expressions generated from structure (lists, ranges, steps, names, ?), a calendar window (leap day, month and year ends, random), 12-31 consecutive ticks with "
                                 "lateness patterns (on time, bursts caught up by bunched ticks, sub-minute jitter), immediate or delayed visibility of starts, and events (file added / edited / broken / removed "
-                                "through the real watcher, suspend / resume, daemon restart); evaluations = ticks, distinct = scenarios",
+                                "through the real watcher, suspend / resume, daemon restart, daemon restart with a file added during start-up); evaluations = ticks, distinct = scenarios",
                         "samples": samples, "exhaustive": False})
         rep.assumptions += ["TZ=UTC; broken-down time of a tick is computed with Go's time package",
                             "the fake client answers GetLatestStatus from its own run table; a monitor judges every job by the answer that job was given",
